@@ -256,28 +256,46 @@ def strategy_inputs(env):
     return last, loss, J, D, R
 
 
-@obligation('C08.strategy.Constant', functions=[f'{STR}:Constant.update', f'{STR}:Constant.__init__'])
+@obligation('C08.strategy.Constant', functions=[f'{STR}:Constant.update', f'{STR}:Constant.__init__', f'{OPT}:LevenbergMarquardt.__init__'])
 def s_const(env):
     strat = env.load(STR)
     lam = env.scalar('damping', positive=True)[0]
     s = strat.Constant(damping=lam)
-    pg = dict(s.defaults)
+    pg, lmn, lmx = lm_group(env, s)
     s.update(pg, last=env.scalar('a')[0], loss=env.scalar('b')[0])
     env.eq('damping unchanged', pg['damping'], lam)
+    check_lm_bounds(env, pg, lmn, lmx)
+
+
+def lm_group(env, s):
+    """the parameter group a real LevenbergMarquardt builds around strategy s: LM's own min / max (the clamp of diag(J^T W J), C07)
+    live in the same dict as the strategy's hyper-parameters, so the strategy must keep its damping bounds apart from them"""
+    optm = env.load(OPT); T = env.T; nn = T.nn
+    class Mdl(nn.Module):
+        def __init__(self): super().__init__(); self.w = nn.Parameter(T.zeros(1))
+        def forward(self, inp): return self.w
+    lmn = env.scalar('lm_min', positive=True)[0]; lmx = lmn + env.scalar('lm_width', positive=True)[0]
+    opt = optm.LevenbergMarquardt(Mdl(), strategy=s, min=lmn, max=lmx)
+    return opt.param_groups[0], lmn, lmx
+
+
+def check_lm_bounds(env, pg, lmn, lmx):
+    env.eq("the group's min is still LevenbergMarquardt's clamp bound", pg['min'], lmn)
+    env.eq("the group's max is still LevenbergMarquardt's clamp bound", pg['max'], lmx)
 
 
 def clampspec(x, lo, hi):
     return lo if bool(x < lo) else (hi if bool(x > hi) else x)
 
 
-@obligation('C08.strategy.Adaptive', functions=[f'{STR}:Adaptive.update', f'{STR}:Adaptive.__init__'], max_paths=64)
+@obligation('C08.strategy.Adaptive', functions=[f'{STR}:Adaptive.update', f'{STR}:Adaptive.__init__', f'{OPT}:LevenbergMarquardt.__init__'], max_paths=64)
 def s_adapt(env):
     strat = env.load(STR); T = env.T
     hp = {k: env.scalar(k, positive=True)[0] for k in ('damping', 'high', 'low', 'mn', 'width')}
     up = 1 + env.scalar('up1', positive=True)[0]; down = 1 / (1 + env.scalar('down1', positive=True)[0])
     mn, mx = hp['mn'], hp['mn'] + hp['width']
     s = strat.Adaptive(damping=hp['damping'], high=hp['high'], low=hp['low'], up=up, down=down, min=mn, max=mx)
-    pg = dict(s.defaults)
+    pg, lmn, lmx = lm_group(env, s)
     last, loss, J, D, R = strategy_inputs(env)
     q = quality(T, last, loss, J, D, R)
     lam = pg['damping']
@@ -287,9 +305,10 @@ def s_adapt(env):
     else: new = lam * up
     env.eq('damping moves as documented (down / same / up) then clamps', pg['damping'], clampspec(new, mn, mx))
     env.holds('damping within [min, max]', (pg['damping'] >= mn) & (pg['damping'] <= mx))
+    check_lm_bounds(env, pg, lmn, lmx)
 
 
-@obligation('C08.strategy.TrustRegion', functions=[f'{STR}:TrustRegion.update', f'{STR}:TrustRegion.__init__'], max_paths=128)
+@obligation('C08.strategy.TrustRegion', functions=[f'{STR}:TrustRegion.update', f'{STR}:TrustRegion.__init__', f'{OPT}:LevenbergMarquardt.__init__'], max_paths=128)
 def s_tr(env):
     strat = env.load(STR); T = env.T
     hp = {k: env.scalar(k, positive=True)[0] for k in ('radius', 'high', 'low', 'mn', 'width')}
@@ -297,7 +316,7 @@ def s_tr(env):
     factor = 1 / (1 + env.scalar('factor1', positive=True)[0])
     mn, mx = hp['mn'], hp['mn'] + hp['width']
     s = strat.TrustRegion(radius=hp['radius'], high=hp['high'], low=hp['low'], up=up, down=down, factor=factor, min=mn, max=mx)
-    pg = dict(s.defaults)
+    pg, lmn, lmx = lm_group(env, s)
     # arbitrary current state of the group: damping = 1/radius_cur, current down factor
     rad = env.scalar('radius_cur', positive=True)[0]; dcur = env.scalar('down_cur', positive=True)[0]
     pg['damping'] = 1 / rad; pg['down'] = dcur
@@ -311,6 +330,7 @@ def s_tr(env):
     env.eq('down factor resets / shrinks as documented then clamps', pg['down'], clampspec(nd, mn, mx))
     env.eq('damping is the reciprocal radius', pg['damping'], 1 / pg['radius'])
     env.holds('radius within [min, max]', (pg['radius'] >= mn) & (pg['radius'] <= mx))
+    check_lm_bounds(env, pg, lmn, lmx)
 
 
 @obligation('C08.canary.accepts_worse', functions=[f'{OPT}:LevenbergMarquardt.step'], canary=True,
